@@ -92,7 +92,20 @@ def spec_from_seed(run_seed, tier):
     qs += [1e-9, 1e-7, 1e-5, 1e-3, 1 - 1e-3, 1 - 1e-5, 1 - 1e-7, 1 - 1e-9]
     qs += [rnd.random() for _ in range(n // 4)]
     rnd.shuffle(qs)
-    text = f"{fam}({', '.join(repr(p) for p in params)})"
+    def fmt(x):
+        x = float(x)
+        forms = [repr(x), repr(x)]
+        if x == int(x) and abs(x) < 1e15:
+            forms.append(str(int(x)))
+        if abs(x) >= 10:
+            m, e = ("%.15e" % x).split("e")
+            forms.append(m.rstrip("0").rstrip(".") + "e" + str(int(e)))
+        if 0 < x < 1:
+            forms.append(repr(x).lstrip("0"))
+        s_ = rnd.choice(forms)
+        return (" " + s_ + " ") if rnd.random() < 0.15 else s_
+
+    text = f"{fam}({','.join(fmt(p) for p in params)})"
     return {"kind": "dist", "prop": "C11", "family": fam, "params": list(params), "text": text, "quantiles": qs, "features": feats,
             "n_grid": n}
 
